@@ -14,7 +14,7 @@ const KINDS: &[&str] = &[
     "iter_sized",
     "iter_unsized",
     "bytes",
- "str_ascii_heap", "str_multibyte_heap", "str_multibyte_safe"];
+ "str_ascii_heap", "str_multibyte_heap", "str_multibyte_safe", "list_concat", "list_repeat", "list_reversed"];
 const ASCII: &[char] = &['a', 'b', 'c', 'd', 'e', 'f'];
 const MULTI: &[char] = &['a', 'é', '☃', '😀', 'b', 'ç'];
 
@@ -79,6 +79,23 @@ fn make_value(kind: &str, len: usize) -> Value {
         "str_multibyte_heap" => Value::from(std::sync::Arc::<str>::from(MULTI[..len].iter().collect::<String>())),
         "str_multibyte_safe" => Value::from_safe_string(MULTI[..len].iter().collect::<String>()),
         "list" => Value::from(ints()),
+        // lazily combined sequences of known length (what `a + b`, `x * n` and `|reverse` hand out)
+        "list_concat" => {
+            let k = len / 2;
+            let a: Vec<Value> = (0..k as i64).map(Value::from).collect();
+            let b: Vec<Value> = (k as i64..len as i64).map(Value::from).collect();
+            Environment::new().compile_expression("a + b").unwrap().eval(context! { a => a, b => b }).unwrap()
+        }
+        "list_repeat" => {
+            // len elements 0..len as two repetitions are not a range; use a one-element step: [0]*0,
+            // or the sequence [0, 1, .., len-1] written as ([...]) * 1
+            let a: Vec<Value> = (0..len as i64).map(Value::from).collect();
+            Environment::new().compile_expression("a * 1").unwrap().eval(context! { a => a }).unwrap()
+        }
+        "list_reversed" => {
+            let a: Vec<Value> = (0..len as i64).rev().map(Value::from).collect();
+            Environment::new().compile_expression("a|reverse").unwrap().eval(context! { a => a }).unwrap()
+        }
         "tuple" => Value::from(Tuple::from(ints())),
         "iter_sized" => Value::make_iterable(move || 0..len as i64),
         "iter_unsized" => Value::make_iterable(move || (0..len as i64).filter(|_| true)),
@@ -254,9 +271,49 @@ fn run_slice(env: &Environment, c: &Case) -> Result<(), Failure> {
     let idx = py_slice_indices(c.len, c.start, c.stop, c.step);
     // materialising the result may panic too (lazy slices)
     match catch(|| expected_check(kind, c.len, &idx, &got)) {
-        Err(p) => Err(mk("panic", format!("panic while iterating: {} at {}", p, last_panic_loc()))),
+        Err(p) => return Err(mk("panic", format!("panic while iterating: {} at {}", p, last_panic_loc()))),
+        Ok(Ok(())) => {}
+        Ok(Err((class, detail))) => return Err(mk(&class, detail)),
+    }
+    // a slice is a sequence in its own right: what a second operation sees (its length, counting
+    // from its end, slicing it again) must agree with the elements it just produced
+    let n = idx.len();
+    let second = catch(|| -> Result<(), String> {
+        let e = |src: &str| env.compile_expression(src).unwrap().eval(context! { r => got.clone() });
+        if !kind.starts_with("iter_unsized") {
+            if let Ok(l) = e("r|length") {
+                if l.as_usize() != Some(n) {
+                    return Err(format!("the slice has {} elements but r|length is {:?}", n, l));
+                }
+            }
+        }
+        let elem = |k: usize| -> Value { e(&format!("(r|list)[{}]", k)).unwrap_or(Value::UNDEFINED) };
+        let chars = kind.starts_with("str_") || kind == "bytes";
+        if !chars {
+            let last = e("r[-1]").map_err(|x| x.to_string())?;
+            if n == 0 && !last.is_undefined() {
+                return Err(format!("r[-1] of an empty slice is {:?}", last));
+            }
+            if n > 0 && last != elem(n - 1) {
+                return Err(format!("r[-1] is {:?} but the last element is {:?}", last, elem(n - 1)));
+            }
+            let tail = e("r[-2:]|list").map_err(|x| x.to_string())?;
+            let want: Vec<Value> = (n.saturating_sub(2)..n).map(elem).collect();
+            if tail != Value::from(want.clone()) {
+                return Err(format!("r[-2:] is {:?} but the last two elements are {:?}", tail, want));
+            }
+            let rev = e("r[::-1]|list").map_err(|x| x.to_string())?;
+            let want: Vec<Value> = (0..n).rev().map(elem).collect();
+            if rev != Value::from(want.clone()) {
+                return Err(format!("r[::-1] is {:?} but the elements reversed are {:?}", rev, want));
+            }
+        }
+        Ok(())
+    });
+    match second {
+        Err(p) => Err(mk("panic", format!("panic in a second operation on the slice: {} at {}", p, last_panic_loc()))),
+        Ok(Err(d)) => Err(mk("second_operation_disagrees", d)),
         Ok(Ok(())) => Ok(()),
-        Ok(Err((class, detail))) => Err(mk(&class, detail)),
     }
 }
 
@@ -435,7 +492,7 @@ pub fn main(args: Args) -> i32 {
             level: "exploration",
             tier: args.tier,
             seed: args.seed,
-            rule: "complete box: 10 kinds (ASCII and multi-byte strings in inline, shared-heap and safe-string storage, list, tuple, sized and unsized lazy iterables, bytes) x len 0..=6 x start,stop in {omitted}U[-9,9]U{i64::MIN,i64::MAX} x step in {omitted}U[-4,4]U{i64::MIN,i64::MAX} x {literal, variable} operand form, plus subscripts v[i] for i in [-9,9]U{i64::MIN,i64::MAX}; oracle = CPython PySlice_AdjustIndices transcribed on i128 + result-kind rule; a case is distinct non-trivial when it selects a non-empty index list, keyed by (kind,len,selected indices)".into(),
+            rule: "complete box: 13 kinds (ASCII and multi-byte strings in inline, shared-heap and safe-string storage, list, tuple, sized and unsized lazy iterables, bytes, lazily concatenated / repeated / reversed lists); every slice result is also used as an operand (its |length, [-1], [-2:], [::-1] must agree with the elements it produced) x len 0..=6 x start,stop in {omitted}U[-9,9]U{i64::MIN,i64::MAX} x step in {omitted}U[-4,4]U{i64::MIN,i64::MAX} x {literal, variable} operand form, plus subscripts v[i] for i in [-9,9]U{i64::MIN,i64::MAX}; oracle = CPython PySlice_AdjustIndices transcribed on i128 + result-kind rule; a case is distinct non-trivial when it selects a non-empty index list, keyed by (kind,len,selected indices)".into(),
             exhaustive: true,
             bound: json!({"kinds": KINDS, "len": "0..=6", "start_stop": "omitted, -9..=9, i64::MIN, i64::MAX", "step": "omitted, -4..=4, i64::MIN, i64::MAX"}),
             assumptions: vec![
